@@ -94,5 +94,11 @@ Definition dispatch_ext (op : Z) (args : list tok) : value :=
     | Some ops => VList (map VInt (snd (seq_run (if kind =? 0 then new_fixed start else new_random start) ops)))
     | None => VBad
     end
+  | 702, [TInt d; TList ops] =>
+    (* NewRandomSequencer with a generator whose Intn(n) returns min(d, n-1) *)
+    match opt_map (fun t => match t with TInt 0 => Some SNext | TInt 1 => Some SRoc | _ => None end) ops with
+    | Some ops => VList (map VInt (snd (seq_run (new_random (Z.min d (max_initial_random - 1))) ops)))
+    | None => VBad
+    end
   | _, _ => VBad
   end.
